@@ -14,7 +14,7 @@ func init() { Registry["C23"] = checkC23 }
 
 func checkC23(r *core.Run, p *core.Program) {
 	r.Rule("C23.buffer-capacity", "data is copied into the CTE writer's scratch buffer only after the buffer has been made large enough for it: every copy(…Buffer…, src) is preceded, on every path, by ExpandBuffer(len(src)) (or a variable holding len(src)), and its result is not used to shorten what is flushed (copy() silently truncates to the destination's length, so a large string or chunk would lose its tail).")
-	checkC23BufferCapacity(r, p)
+	checkBufferCapacity(r, p, "C23.buffer-capacity", "cte")
 	r.Rule("C23.byte-separators", "a writer that separates the items of its argument itself (WriteHexBytes: `if i > 0 { separator }`) decides `first item` by the index of ONE loop over the whole argument: the index tested belongs to a range/for loop over the function's own slice parameter that is not nested in another loop (an index that restarts per block drops the separator at every block boundary).")
 	checkC23ByteSeparators(r, p)
 	r.Rule("C23.units", "in the CTE array engine chunk lengths (element counts) and delivered data lengths (byte counts) are never added, subtracted or compared without conversion by the element width.")
@@ -713,8 +713,10 @@ func c23Bits(r *core.Run, p *core.Program) {
 		"the number of characters printed for the last partial byte is not the remaining element count")
 }
 
-func checkC23BufferCapacity(r *core.Run, p *core.Program) {
-	pkg := p.Pkg("cte")
+// checkBufferCapacity: every copy() into a writer's Buffer field in package rel is preceded by
+// ExpandBuffer / ExpandBufferTo(len(src)) and its result does not decide how much is flushed.
+func checkBufferCapacity(r *core.Run, p *core.Program, ruleID, rel string) {
+	pkg := p.Pkg(rel)
 	info := pkg.TypesInfo
 	n := 0
 	for _, f := range funcsOf(pkg) {
@@ -759,7 +761,7 @@ func checkC23BufferCapacity(r *core.Run, p *core.Program) {
 					return true
 				}
 				c := callee(info, ec)
-				if c == nil || c.Name() != "ExpandBuffer" {
+				if c == nil || (c.Name() != "ExpandBuffer" && c.Name() != "ExpandBufferTo") {
 					return true
 				}
 				arg := stripParens(ec.Args[0])
@@ -794,12 +796,12 @@ func checkC23BufferCapacity(r *core.Run, p *core.Program) {
 					usesResult = true
 				}
 			}
-			r.Check("C23.buffer-capacity", f.Name()+"|copy into Buffer", call.Pos(), expanded && !usesResult,
+			r.Check(ruleID, f.Name()+"|copy into Buffer", call.Pos(), expanded && !usesResult,
 				"`"+exprStr(call)+"` is not preceded by ExpandBuffer(len("+src+")) (or its result decides how much is flushed): copy() stops at the buffer's current length, so the tail of a long string or chunk is silently dropped")
 			return true
 		})
 	}
-	r.Floor("C23.buffer-capacity", "copies into the writer's buffer", n, 1)
+	r.Floor(ruleID, "copies into the writer's buffer", n, 1)
 }
 
 func checkC23ByteSeparators(r *core.Run, p *core.Program) {
